@@ -24,6 +24,7 @@ mod c15;
 mod execchild;
 mod c16;
 mod c17;
+mod c18;
 mod c19;
 mod c20;
 mod cfggen;
@@ -50,6 +51,7 @@ fn property(id: &str) -> Option<Property> {
         "C15" => c15::property(),
         "C16" => c16::property(),
         "C17" => c17::property(),
+        "C18" => c18::property(),
         "C19" => c19::property(),
         "C20" => c20::property(),
         _ => return None,
